@@ -64,7 +64,7 @@ func refSeqs(n int) [][]uint64 {
 }
 
 func checkC20(c *ctx) {
-	c.Rule = "every AddRef/DecRef(Close) sequence up to the length bound with the count positive until the end (exhaustive); after each step: /proc/self/maps, /proc/self/fd and a full read through the API are compared with the model state (refs, mapped, releases); random histories with readers in between (full read, completed merge, abandoned merge, merge whose output cannot be created); 2-9 concurrent holders with readers; the last 2-4 references dropped at the same instant through a spin barrier (exactly one release, no error); non-trivial = sequence of length >= 3 containing an AddRef"
+	c.Rule = "every AddRef/DecRef(Close) sequence up to the length bound with the count positive until the end (exhaustive); after each step: /proc/self/maps, /proc/self/fd and a full read through the API are compared with the model state (refs, mapped, releases); random histories with readers in between (full read, completed merge, abandoned merge, merge whose output cannot be created); 2-9 concurrent holders with readers; the last 2-4 references dropped at the same instant through a spin barrier (exactly one release, no error); an in-memory segment closed, smaller batches built afterwards on the same P with GC off, the closed segment read again (dictionaries, stored fields, doc values); non-trivial = sequence of length >= 3 containing an AddRef"
 	c.Assumptions = append(c.Assumptions,
 		"munmap/close are OS behaviour: observed through /proc/self/maps and /proc/self/fd, not modelled",
 		"concurrency: each operation is one atomic step under Segment.m (theorem covers all interleavings of atomic steps); data-race freedom is observed with the race detector on sampled schedules only")
